@@ -440,6 +440,7 @@ def run(ctx):
             check_fai(w)
 
         # -- fetches
+        kept = []     # results of whole-contig fetches are kept and looked at again after all later fetches
         for op in ops:
             if op["op"] == "whole":
                 name = w.names[op["rec"]]
@@ -464,6 +465,7 @@ def run(ctx):
                     raise Violation("whole_contig", "mismatch", w.detail(name=name, expected=expected,
                                     got=core.short(got_t, 500),
                                     repro=_repro(data, route, f"{'seq' if route == 'genome' else 'idx'}[{name!r}]")))
+                kept.append((name, got, expected))
             elif op["op"] in ("all", "batch"):
                 run_intervals(bnp, w, handle, genome, op)
             elif op["op"] == "lengths":
@@ -480,6 +482,17 @@ def run(ctx):
                     raise Violation("contig_lengths", "wrong", w.detail(
                         expected=expected, got=core.short(core.plain(got), 400),
                         repro=_repro(data, route, "idx.get_contig_lengths()")))
+
+        # -- a fetched contig is a value: later fetches must not change what an earlier fetch returned
+        for name, got, expected in kept:
+            got_t = _text(got)
+            if route == "genome":
+                got_t = got_t.upper() if isinstance(got_t, str) else got_t
+            ctx.evals += 1
+            if not core.same(got_t, expected):
+                raise Violation("whole_contig", "changed_by_later_fetch", w.detail(
+                    name=name, expected=expected, got=core.short(got_t, 500),
+                    repro=_repro(data, route, "fetch every contig, keep the results, compare them afterwards")))
 
         # -- I/O pattern of the fetch phase (recorded, not judged: the property does not constrain it)
         for e in fs.log:
